@@ -111,4 +111,35 @@ def getClassMethodT (fuel : Nat) (tbl : Methods) (g : Inh) (bc : List Str) (fram
       let k3 := classMethodKey "Builtin".toList [] method false
       if has tbl k3 then some k3 else none
 
+
+/-! ### The ancestor walk of the protected-method check (`isAncestorNode`, instance_method_strategy.go)
+
+`ClassInheritanceMap` is keyed by the whole `ClassNode`, flags included, and classes register under a node
+without flags: an include/extend edge is compared with the target but never followed. A node is marked as seen
+on entry, which ends the walk on cyclic declarations. -/
+
+def parentsOfNode (g : Inh) (n : Node) : List Node :=
+  if n.isInclude || n.isExtend then [] else parentsOf g n.frame n.cls
+
+mutual
+def isAncestor (fuel : Nat) (g : Inh) (node target : Node) (seen : List Node) : Bool × List Node :=
+  match fuel with
+  | 0 => (false, seen)
+  | fuel + 1 =>
+    if seen.contains node then (false, seen)
+    else anyAncestor fuel g (parentsOfNode g node) target (node :: seen)
+def anyAncestor (fuel : Nat) (g : Inh) (ps : List Node) (target : Node) (seen : List Node) : Bool × List Node :=
+  match ps with
+  | [] => (false, seen)
+  | p :: rest =>
+    if p == target then (true, seen)
+    else match isAncestor fuel g p target seen with
+      | (true, s) => (true, s)
+      | (false, s) => anyAncestor fuel g rest target s
+end
+
+/-- the protected check: the caller's class is the defining class or has it among its ancestors -/
+def protectedOk (fuel : Nat) (g : Inh) (caller defined : Node) : Bool :=
+  caller == defined || (isAncestor fuel g caller defined []).1
+
 end RubyTi.Inherit
